@@ -40,6 +40,13 @@ def norm_shape(a):
 
 
 def execute(case):
+    if case.get("writer") == "py7zr":
+        # an archive written by py7zr itself (zero-length files are stored as zero-length STREAMS of their folder)
+        from .C10 import execute_py7zr_written
+        c = dict(case)
+        c.setdefault("filters", [{"id": 0x21, "preset": 1}])
+        c.setdefault("methods", [])
+        return execute_py7zr_written(c)
     py7zr = import_py7zr()
     wd = case["wd"]
     os.makedirs(wd, exist_ok=True)
